@@ -131,6 +131,35 @@ theorem clone_refines (cfg : Cfg) (w : World) (ms : RefineMulti.MSpec) (h : Refi
       (World.step cfg (.clone v) w).2.notUb :=
   RefineMulti.clone_refines cfg w ms h v a hv hcl
 
+/-- **`clone_empty()` / `clone_empty_in(..)` make an empty vector for the same elements and clone nothing**: in any
+world that shows an abstract state of all its vectors, `clone_empty_in` of a live vector leads to a world that shows the
+same state plus one new last vector - empty, of the source's element type and trait set (so `Cloneable` is inherited and
+a later `clone()` of it type-checks exactly when one of the source does), on the requested storage at the capacity that
+storage starts with for the source's element layout; the identity counter does not move (no clone was made) and every
+other component, the source included, is unchanged. Or the storage cannot be built for this layout: a panic, no change. -/
+theorem clone_empty_in_refines (cfg : Cfg) (w : World) (ms : RefineMulti.MSpec) (h : RefineMulti.MRel w ms) (v : Nat)
+    (bk : Backend) (a : RefineMulti.AVec) (hv : ms.vecs[v]? = some (some a)) :
+    ∃ d, w.vecs[v]? = some d ∧
+    ((∃ cap, VecSt.buildCap bk d.size d.align = .ok cap ∧
+        RefineMulti.MRel (World.step cfg (.cloneEmptyIn v bk) w).1
+          ⟨ms.vecs ++ [some ⟨a.ty, [], cap, !VecSt.resizable bk, a.cloneable⟩], ms.next⟩ ∧
+        (World.step cfg (.cloneEmptyIn v bk) w).2 = .ok []) ∨
+     (∃ m, VecSt.buildCap bk d.size d.align = .panic m ∧ RefineMulti.MRel (World.step cfg (.cloneEmptyIn v bk) w).1 ms ∧
+        (World.step cfg (.cloneEmptyIn v bk) w).2 = .panic m)) :=
+  RefineMulti.clone_empty_in_refines cfg w ms h v bk a hv
+
+/-- the same for `clone_empty()`: the new vector sits on the source's own kind of storage (growable iff the source is) -/
+theorem clone_empty_refines (cfg : Cfg) (w : World) (ms : RefineMulti.MSpec) (h : RefineMulti.MRel w ms) (v : Nat)
+    (a : RefineMulti.AVec) (hv : ms.vecs[v]? = some (some a)) :
+    ∃ d, w.vecs[v]? = some d ∧
+    ((∃ cap, VecSt.buildCap d.bk d.size d.align = .ok cap ∧
+        RefineMulti.MRel (World.step cfg (.cloneEmpty v) w).1
+          ⟨ms.vecs ++ [some ⟨a.ty, [], cap, a.fixed, a.cloneable⟩], ms.next⟩ ∧
+        (World.step cfg (.cloneEmpty v) w).2 = .ok []) ∨
+     (∃ m, VecSt.buildCap d.bk d.size d.align = .panic m ∧ RefineMulti.MRel (World.step cfg (.cloneEmpty v) w).1 ms ∧
+        (World.step cfg (.cloneEmpty v) w).2 = .panic m)) :=
+  RefineMulti.clone_empty_refines cfg w ms h v a hv
+
 /-- **… and stays independent**: from a world that shows the abstract vectors - for instance right after a `clone()` -
 any history of operations on *any* of the vectors, interleaved in any order, changes each abstract vector only by the
 operations addressed to it: the clone never sees what happens to its source and vice versa. -/
